@@ -32,6 +32,27 @@ pub fn rewrite(msgs: &[Msg]) -> Vec<Msg> {
     out
 }
 
+/// the history with everything behind a unit that fails in execution removed from its
+/// message: C06 allows an implementation to skip the rest of a message after an error
+/// ("all or none"), and C02 must not demand more
+fn truncate_after_failures(msgs: &[Msg]) -> Option<Vec<Msg>> {
+    let mut changed = false;
+    let mut out = msgs.to_vec();
+    for m in out.iter_mut() {
+        if let Some(j) = m.faulty() {
+            if j + 1 < m.units.len() {
+                m.units.truncate(j + 1);
+                changed = true;
+            }
+        }
+    }
+    if changed {
+        Some(out)
+    } else {
+        None
+    }
+}
+
 fn differ(a: &Out, b: &Out) -> Option<&'static str> {
     if a.handlers() != b.handlers() {
         return Some("handlers");
@@ -190,6 +211,23 @@ impl Prop for C02T {
         if a.crashed() {
             return Verdict::Skip("skip:crashed(C05)");
         }
+        // "none" alternative: the units behind a failing unit were skipped
+        let none_msgs = truncate_after_failures(&sc.msgs);
+        let mut took_none = false;
+        let mut c_ref = c_run.clone();
+        if differ(&a, &c_run).is_some() {
+            if let Some(nm) = &none_msgs {
+                let rwn = rewrite(nm);
+                let (rb, rbounds) = render(&rwn);
+                let c_none = exec(&run_exec(sc, rb, rbounds, Sink::Sim(None), susp.clone()), st);
+                if !c_none.crashed() && differ(&a, &c_none).is_none() {
+                    took_none = true;
+                    c_ref = c_none;
+                    st.bump("reach:rest_of_message_skipped_after_execution_error");
+                }
+            }
+        }
+        let c_run = c_ref;
         if let Some(what) = differ(&a, &c_run) {
             return Verdict::Violation {
                 class: "path-context-run".into(),
@@ -269,6 +307,12 @@ impl Prop for C02T {
         // (b) through process, against the rewritten history through process
         if !sc.flag("no_process") && need_n(&sc.msgs).max(need_n(&rw_msgs)) <= sc.n {
             st.bump("reach:compared_through_process");
+            let (rw, rw_msgs) = if took_none {
+                let nm = rewrite(none_msgs.as_ref().unwrap());
+                (render(&nm).0, nm)
+            } else {
+                (rw.clone(), rw_msgs.clone())
+            };
             let c_proc = exec(&process_exec(sc, rw.clone(), 1), st);
             let b = exec(&process_exec(sc, orig.clone(), 0), st);
             if b.unsupported || c_proc.unsupported {
